@@ -541,6 +541,14 @@ def check_offsets(ctx, wit, ana, text, itoks):
         if t.text in variants:
             ctx.count("e.exact_by_equality")
             continue
+        # independent of the analyzer under test (the re-analysis below would repeat an offset bug of the
+        # tokenizer itself): a token without surrounding blanks whose reported source slice has some is not
+        # delimited exactly - unless a StripFilter is documented to produce just that
+        if piece != piece.strip() and t.text == t.text.strip() and not _has_strip(ana):
+            ctx.fail("e.offsets", "slice-has-surrounding-whitespace:%s" % wit["analyzer"],
+                     dict(wit, token=t.tup(), slice=short(piece, 80)),
+                     "text[%d:%d]=%r for token %r" % (t.sc, t.ec, short(piece, 60), short(t.text, 60)))
+            return
         # otherwise (stemming, folding, bi-words, merged sub-words ...): the token must be reproducible from
         # exactly this slice, spanning it fully
         try:
